@@ -8,7 +8,11 @@ namespace Driver.C20
 open LiquidVerif
 
 def cs? (j : Json) : Option (List Char) := (asStr? j).map (·.toList)
-def sj (l : List Char) : Json := jstr (String.ofList l)
+/-- strings travel as JSON strings when printable ASCII, else as `{"u": [code points]}` (the harness
+splits the driver's output with `str.splitlines`, which also breaks at U+0085, U+2028, …) -/
+def sj (l : List Char) : Json :=
+  if l.all (fun c => 0x20 ≤ c.val && c.val < 0x7F) then jstr (String.ofList l)
+  else Json.mkObj [("u", jarr (l.map fun c => jnat c.val.toNat))]
 
 def etok (t : ExprLex.Token) : Json := jarr [jstr t.kind, sj t.value, jnat t.start]
 
